@@ -597,6 +597,8 @@ def pdf(z):
 def ei_quadrature(mu, sd, best, n=4000):
   """E[max(best - Y, 0)], Y ~ N(mu, sd^2): Gauss-Legendre on [mu - 12 sd, best]"""
   lo, hi = mu - 12 * sd, min(best, mu + 12 * sd)   # beyond mu + 12 sd the density is < 1e-32 of its peak
+  if mu + 12 * sd <= mu - 12 * sd or sd < 1e-150:
+    return max(0.0, best - mu)   # the floored variance (1e-100) is below the spacing of doubles around mu: Y is the constant mu
   if hi <= lo:
     return 0.0
   xs, ws = numpy.polynomial.legendre.leggauss(400)
